@@ -58,6 +58,12 @@ Proof. intros H. rewrite <- (firstn_skipn n l). apply in_or_app. left. exact H. 
 Lemma In_skipn {A} n (l : list A) x : In x (skipn n l) -> In x l.
 Proof. intros H. rewrite <- (firstn_skipn n l). apply in_or_app. right. exact H. Qed.
 
+Lemma nth_map' {A B} (f : A -> B) l i d d' : i < length l -> nth i (map f l) d = f (nth i l d').
+Proof.
+  revert i. induction l as [|x xs IH]; intros i H; [cbn in H; lia|].
+  destruct i; [reflexivity|]. cbn [map nth]. apply IH. cbn in H. lia.
+Qed.
+
 Lemma firstn_seq m a n : firstn m (seq a n) = seq a (Nat.min m n).
 Proof.
   revert a n. induction m as [|m IH]; intros a n; [reflexivity|].
